@@ -91,6 +91,22 @@ func (r *Run) oracleC04() {
 			r.fail("C04.visible-unverified", "version serial=%d (stamps %v) became visible at step %d without a successful Verify call on it before that step", in.Serial, in.Stamps, in.Step)
 		}
 	}
+	// a successful EnableVerification switches verification on: what is
+	// installed when it returns (and whatever it returned) has passed Verify
+	if r.sc.Delay {
+		for _, op := range r.ops {
+			if op.K != "enable" || op.Return == 0 || op.Err != nil {
+				continue
+			}
+			if cur := r.currentAt(op.Return); cur >= 0 {
+				in := r.installs[cur]
+				if !in.Valid || !r.verifiedBefore(in.Ptr, op.Return) {
+					r.fail("C04.visible-unverified", "EnableVerification returned successfully at step %d, but the config installed at that moment (serial %d, stamps %v) had not passed Verify (valid=%v)", op.Return, in.Serial, in.Stamps, in.Valid)
+				}
+			}
+			break // the first successful one is the switch-on
+		}
+	}
 	// everything a program observed is an installed version
 	for _, op := range r.ops {
 		if op.Cfg == nil {
@@ -538,6 +554,9 @@ func (r *Run) oracleC09() {
 				r.fail("C09.enable", "EnableVerification without DelayInitialVerification returned a config that is not an installed version (%p)", op.Cfg)
 			}
 		}
+		// no delay is in force, whatever the suppress option says: global
+		// callbacks are delivered
+		r.suppressionClauses(func(int) (bool, bool) { return false, true })
 		return
 	}
 	firstOK := 0
@@ -683,6 +702,12 @@ func (r *Run) oracleC09() {
 		}
 		return true, false
 	}
+	r.suppressionClauses(delayedAt)
+}
+
+// suppressionClauses: global callbacks are withheld exactly while the delay is
+// in force and the suppress option is set (delayedAt: delayed?, known?).
+func (r *Run) suppressionClauses(delayedAt func(step int) (bool, bool)) {
 	keep := r.keepUp() && r.sc.GlobalCB != "block" && !r.sc.NoGlobalCB
 	called := map[int]bool{}
 	for _, cb := range r.cbs {
